@@ -1,10 +1,94 @@
 (* C18 — A store never has two authorities; a live authority's lock is never taken.
-   Statements only; proofs are in Proofs/AuthorityProofs.v.  Every theorem is closed by `exact`. *)
-From RipV Require Import Base.Prelude Model.Authority Proofs.AuthorityProofs.
+   Statements only; proofs are in Proofs/AuthorityInv.v (invariant) and Proofs/AuthorityProofs.v (witnesses).
+   Every theorem is closed by `exact`.
 
-(* S13 — the faithful model violates mutual exclusion under SOME schedule: a stale lock of a dead pid
-   (s13_init = init (LRec 900) MAbsent [fresh 1 DServer; fresh 2 DServer]), two server loops, both pass the re-read
-   before either renames *)
+   Vocabulary (Model/Authority.v, Proofs/AuthorityInv.v):
+   * run ag s es      — the model after the schedule es (Step i o = one file-system operation of process i with
+                        adversarial environment answers o; Crash i); ag = the 1 s invalid-lock timer is long enough.
+   * init l m ps      — leftover files l (lock.json) / m (meta.json) and the process list ps;
+     init_ok l m ps   — distinct pids; every process is a fresh server loop, a fresh client loop, or a live serving
+                        authority whose record is in the lock; a lock / meta pid that is alive belongs to such an
+                        authority (i.e. every other leftover is absent, half-written or of a DEAD pid).
+   * holders s        — pids of the live processes that own an AuthorityLockGuard.
+   * s_took_lock / s_took_meta — ghost flags: some process renamed or removed the lock / meta of ANOTHER LIVE pid.
+   * no_overlap ag s es — along the schedule no exclusive create succeeds while ANOTHER live contender is between
+                        the check and the rename of a lock cleanup (pc StRename / CoExists / CoMetaExists / CoRename),
+                        and no meta.json is published while another live contender is between reading the dead
+                        authority's meta and renaming it (pc StMetaRename).  The three known findings S13 / S13b /
+                        S13c are exactly the schedules excluded by it (c18_witnesses_are_overlaps). *)
+From RipV Require Import Base.Prelude Model.Authority Proofs.AuthorityInv Proofs.AuthorityProofs.
+
+(* ---- exclusive create: no dead leftovers (no files at all), ANY number of contenders, ANY crash-free schedule *)
+Theorem c18_mutex_no_leftovers : forall (ps : list proc) (es : list event),
+  contenders_ok ps -> crash_free es = true ->
+  (length (holders (run true (init LAbsent MAbsent ps) es)) <= 1)%nat
+  /\ (forall p, In p (holders (run true (init LAbsent MAbsent ps) es)) ->
+                lock_pid (s_lock (run true (init LAbsent MAbsent ps) es)) = Some p).
+Proof. exact mutex_no_leftovers. Qed.
+Print Assumptions c18_mutex_no_leftovers.
+
+(* the same with the files of a live serving authority as the leftover; also: nothing of a live pid is ever taken *)
+Theorem c18_mutex_no_dead_leftovers : forall (l : lockf) (m : metaf) (ps : list proc) (es : list event),
+  init_ok l m ps ->
+  (forall p, lock_pid l = Some p -> pid_alive ps p = true) ->
+  (forall p, meta_pid m = Some p -> pid_alive ps p = true) ->
+  crash_free es = true ->
+  (length (holders (run true (init l m ps) es)) <= 1)%nat
+  /\ (forall p, In p (holders (run true (init l m ps) es)) -> lock_pid (s_lock (run true (init l m ps) es)) = Some p)
+  /\ s_took_lock (run true (init l m ps) es) = false /\ s_took_meta (run true (init l m ps) es) = false.
+Proof. exact mutex_no_dead_leftovers. Qed.
+Print Assumptions c18_mutex_no_dead_leftovers.
+
+(* ---- every leftover state, any number of contenders, crashes anywhere, every schedule whose cleanups do not overlap
+   another contender's acquire: at most one holder, and the lock file carries the holder's record *)
+Theorem c18_mutex_serial_cleanup : forall (l : lockf) (m : metaf) (ps : list proc) (es : list event),
+  init_ok l m ps -> no_overlap true (init l m ps) es = true ->
+  (length (holders (run true (init l m ps) es)) <= 1)%nat
+  /\ (forall p, In p (holders (run true (init l m ps) es)) -> lock_pid (s_lock (run true (init l m ps) es)) = Some p).
+Proof. exact mutex_serial_cleanup. Qed.
+Print Assumptions c18_mutex_serial_cleanup.
+
+(* ---- ... and under the same hypothesis recovery renames / removes only files of pids that are dead (partial: the
+   missing hypothesis is no_overlap; the full statement is c18_live_files_never_taken_full below, refuted) *)
+Theorem c18_live_lock_never_taken_partial : forall (l : lockf) (m : metaf) (ps : list proc) (es : list event),
+  init_ok l m ps -> no_overlap true (init l m ps) es = true ->
+  s_took_lock (run true (init l m ps) es) = false /\ s_took_meta (run true (init l m ps) es) = false.
+Proof. exact live_files_never_taken. Qed.
+Print Assumptions c18_live_lock_never_taken_partial.
+
+(* the hypotheses are satisfiable by non-trivial runs *)
+Example c18_serial_example :
+  init_ok (LRec 900) (MRec 900) two_servers
+  /\ no_overlap true s13c_init serial_sched = true
+  /\ holders (run true s13c_init serial_sched) = [1]
+  /\ s_lock (run true s13c_init serial_sched) = LRec 1 /\ s_meta (run true s13c_init serial_sched) = MRec 1.
+Proof. exact serial_example. Qed.
+Example c18_interleaved_example :
+  no_overlap true s13_init interleaved_sched = true
+  /\ (length (holders (run true s13_init interleaved_sched)) <= 1)%nat.
+Proof. exact interleaved_example. Qed.
+Example c18_bystander_example : init_ok (LRec 800) (MRec 800) with_bystander
+  /\ (forall p, lock_pid (LRec 800) = Some p -> pid_alive with_bystander p = true)
+  /\ (forall p, meta_pid (MRec 800) = Some p -> pid_alive with_bystander p = true).
+Proof. exact bystander_ok. Qed.
+Example c18_no_leftovers_example :
+  contenders_ok three_contenders /\ crash_free race_sched = true
+  /\ holders (run true (init LAbsent MAbsent three_contenders) race_sched) = [1].
+Proof. exact no_leftovers_example. Qed.
+
+(* ---- the full statements, and that the faithful model REFUTES them (S13) *)
+Definition c18_mutex_all_schedules : Prop := mutex_all_schedules_full.
+Theorem c18_mutex_all_schedules_false : ~ c18_mutex_all_schedules.
+Proof. exact mutex_all_schedules_full_false. Qed.
+Print Assumptions c18_mutex_all_schedules_false.
+
+Definition c18_live_files_never_taken_full : Prop := live_files_never_taken_full.
+Theorem c18_live_files_never_taken_full_false : ~ c18_live_files_never_taken_full.
+Proof. exact live_files_never_taken_full_false. Qed.
+Print Assumptions c18_live_files_never_taken_full_false.
+
+(* S13 — a stale lock of a dead pid (s13_init = init (LRec 900) MAbsent [fresh 1 DServer; fresh 2 DServer]), two
+   server loops, both pass the re-read before either renames *)
 Theorem c18_mutex_all_schedules_refuted :
   exists sched : list event,
     holders (run true s13_init sched) = [1; 2] /\ s_took_lock (run true s13_init sched) = true.
@@ -26,6 +110,13 @@ Theorem c18_meta_of_live_authority_taken_refuted :
     /\ s_took_meta (run true s13c_init sched) = true /\ s_took_lock (run true s13c_init sched) = false.
 Proof. exact meta_of_live_authority_taken_refuted. Qed.
 Print Assumptions c18_meta_of_live_authority_taken_refuted.
+
+(* the three witnesses are schedules the hypothesis of the positive theorems excludes *)
+Theorem c18_witnesses_are_overlaps :
+  no_overlap true s13_init s13_sched = false /\ no_overlap true s13b_init s13b_sched = false
+  /\ no_overlap true s13c_init s13c_sched = false.
+Proof. exact witnesses_overlap. Qed.
+Print Assumptions c18_witnesses_are_overlaps.
 
 (* the half-written lock of a live, slow acquirer is protected only by the 1 s timer
    (empty_init = init LAbsent MAbsent [two servers]; run false = timer answers fully adversarial) *)
